@@ -15,7 +15,7 @@
 //     rej:k          the k-th next device WRITE access (0 = next) fails (transient)
 // output: <cached run> -9 <uncached run>; a run is: for every op a length-prefixed result
 //   (0 payload | 1 eclass | 2 panic), then -7, number of log entries, entries
-//   (0 addr len | 1 addr len bytes...), then -8, final image.
+//   (0 addr len | 1 addr len bytes... | 2 = start of the next operation), then -8, final image.
 use cameleon_genapi::builder::GenApiBuilder;
 use cameleon_genapi::interface::*;
 use cameleon_genapi::store::{CacheStore, DefaultNodeStore, NodeId, NodeStore, ValueStore};
@@ -191,6 +191,7 @@ fn run_history<T: ValueStore, U: CacheStore>(
 ) -> Vec<i128> {
     let mut out = vec![];
     for op in ops {
+        dev.log.push(vec![2]); // operation boundary
         let r = catch_unwind(AssertUnwindSafe(|| run_op(op, dev, store, cx))).unwrap_or_else(|_| vec![2]);
         out.push(r.len() as i128);
         out.extend(r);
